@@ -114,6 +114,8 @@ impl CellOutput {
 impl ScriptOpt {
     #[verifier::external_body]
     pub fn is_none(&self) -> (r: bool) ensures r == self.s_opt().is_none() { unimplemented!() }
+    #[verifier::external_body]
+    pub fn is_some(&self) -> (r: bool) ensures r == self.s_opt().is_some() { unimplemented!() }
 }
 pub uninterp spec fn json_out_point(h: Seq<u8>, i: u32) -> JsonOutPoint;
 #[verifier::external_body]
